@@ -259,3 +259,40 @@ impl FromPrimitive for Dd {
         Some(Dd::new(v))
     }
 }
+
+/// transparent newtypes over f32 / f64: same size and arithmetic as the float, but a different *type* —
+/// a SIMD planner that gates on `size_of` instead of `TypeId` would wrongly accept them
+macro_rules! float_newtype {
+    ($name:ident, $f:ty) => {
+        #[derive(Copy, Clone, Debug, PartialEq, PartialOrd)]
+        pub struct $name(pub $f);
+        impl Add for $name { type Output = $name; fn add(self, o: $name) -> $name { $name(self.0 + o.0) } }
+        impl Sub for $name { type Output = $name; fn sub(self, o: $name) -> $name { $name(self.0 - o.0) } }
+        impl Mul for $name { type Output = $name; fn mul(self, o: $name) -> $name { $name(self.0 * o.0) } }
+        impl Div for $name { type Output = $name; fn div(self, o: $name) -> $name { $name(self.0 / o.0) } }
+        impl Rem for $name { type Output = $name; fn rem(self, o: $name) -> $name { nonring(); $name(self.0 % o.0) } }
+        impl Neg for $name { type Output = $name; fn neg(self) -> $name { $name(-self.0) } }
+        impl Zero for $name { fn zero() -> Self { $name(0.0) } fn is_zero(&self) -> bool { self.0 == 0.0 } }
+        impl One for $name { fn one() -> Self { $name(1.0) } }
+        impl Num for $name { type FromStrRadixErr = (); fn from_str_radix(_: &str, _: u32) -> Result<Self, ()> { Err(()) } }
+        impl Signed for $name {
+            fn abs(&self) -> Self { nonring(); $name(self.0.abs()) }
+            fn abs_sub(&self, o: &Self) -> Self { nonring(); $name((self.0 - o.0).max(0.0)) }
+            fn signum(&self) -> Self { nonring(); $name(self.0.signum()) }
+            fn is_positive(&self) -> bool { nonring(); self.0 > 0.0 }
+            fn is_negative(&self) -> bool { nonring(); self.0 < 0.0 }
+        }
+        impl ToPrimitive for $name {
+            fn to_i64(&self) -> Option<i64> { Some(self.0 as i64) }
+            fn to_u64(&self) -> Option<u64> { Some(self.0 as u64) }
+            fn to_f64(&self) -> Option<f64> { Some(self.0 as f64) }
+        }
+        impl FromPrimitive for $name {
+            fn from_i64(n: i64) -> Option<Self> { Some($name(n as $f)) }
+            fn from_u64(n: u64) -> Option<Self> { Some($name(n as $f)) }
+            fn from_f64(v: f64) -> Option<Self> { Some($name(v as $f)) }
+        }
+    };
+}
+float_newtype!(New32, f32);
+float_newtype!(New64, f64);
